@@ -3,7 +3,7 @@ import ast
 import z3
 from pyvc.values import *   # noqa
 from pyvc.harness import unit, mutate_function, replace_compare
-from pyvc.loops import LoopSpec, loop_table
+from pyvc.loops import LoopSpec, loop_table, Sel
 from pyvc.ctx import Undecided
 from pyvc.interp import _Break, _Continue
 from .so_common import *    # noqa
@@ -93,7 +93,7 @@ def send_append_entries(ctx):
     loop = _loop_body(so.mod, SEND, 1)
     if not isinstance(loop, ast.While):
         raise Undecided('loop #1 of __sendAppendEntries is not the per-node while loop any more')
-    loops = {SEND: loop_table(so.mod, SEND, {2: _chunk_loop_spec(so, ctx)})}
+    loops = {SEND: loop_table(so.mod, SEND, {Sel('for', header=('range',), body=('transmission',)): _chunk_loop_spec(so, ctx)})}
     reg = dict(SUMMARIES)
     del reg['SyncObj.__sendAppendEntries']
     reg['Serializer.getTransmissionData'] = getTransmissionData_ext
